@@ -3,11 +3,16 @@
    computation on a witness) and followed by Print Assumptions.
 
    What is proved: the XSD reference matcher is correct against the denotational semantics for all
-   regular expressions and strings; the textual rewrite libyang applies before PCRE2 (as coded) is
-   the identity / the intended anchor escaping on the stated classes of patterns and provably NOT
-   the intended text on the witnesses below; list evaluation with invert-match negates exactly the
-   marked patterns. What is not proved here: that PCRE2 gives the rewritten text the XSD meaning
-   (PCRE2 is external; that part is the Match correspondence of tools/props/comps_regex.py). *)
+   regular expressions and strings; the textual rewrite libyang applies before PCRE2 (as coded, after
+   the fixes 0ef0929 and 97840a6) always ends with a text or one of the three errors of the code
+   (no undefined behaviour, no fuel), is the intended anchor escaping on every pattern made of
+   ordinary bytes, escape pairs, bracket expressions and anchors, substitutes a block by the range of
+   that block with or without brackets, and IS the intended rewrite (rewrite_spec) on every pattern
+   without an escaped backslash whose block names are exact; it is provably NOT the intended text on
+   the witnesses of the three defects that are left (prefix lookup of block names, the cut Specials
+   range, the bracket counter after an escaped backslash); list evaluation with invert-match negates
+   exactly the marked patterns. What is not proved here: that PCRE2 gives the rewritten text the XSD
+   meaning (PCRE2 is external; that part is the Match correspondence of tools/props/comps_regex.py). *)
 From LY Require Import Base Xsd XsdP XsdParse Rewrite RewriteP.
 Local Open Scope N_scope.
 
@@ -17,6 +22,28 @@ Local Open Scope N_scope.
 Theorem C18_match_correct : forall r s, matches r s = true <-> in_lang r s.
 Proof. exact match_correct. Qed.
 Print Assumptions C18_match_correct.
+
+(* For EVERY pattern the rewrite ends with a text for pcre2_compile() or with one of the three
+   LY_EVALID exits of the code (1 = ']' outside brackets, 2 = \p{Is without '}', 3 = unknown block
+   name). Nothing else can happen: the model has no error class for undefined behaviour any more
+   (the out-of-range table index of the block rewrite is gone with 0ef0929, see the header of
+   Rewrite.v for the remaining index and size computations) and its fuel never runs out. *)
+Theorem C18_rewrite_total :
+  forall p, (exists t, rewrite p = Ok t) \/ rewrite p = Err 1 \/ rewrite p = Err 2 \/ rewrite p = Err 3.
+Proof. exact rewrite_result. Qed.
+Print Assumptions C18_rewrite_total.
+
+(* in the numbering of the first transcription: never class 4 (undefined behaviour), never class 9 (fuel) *)
+Theorem C18_rewrite_no_ub : forall p, rewrite p <> Err 4 /\ rewrite p <> Err 9.
+Proof. exact rewrite_no_ub. Qed.
+Print Assumptions C18_rewrite_no_ub.
+
+(* the former witness of the out-of-bounds index (bracket counter below zero at the block) now is
+   rewritten - wrongly, see C18_block_depth_refuted, but with defined behaviour *)
+Example C18_rewrite_no_ub_ex :
+  rewrite [92;92;91;93;92;112;123;73;115;71;114;101;101;107;125]
+  = Ok [92;92;91;93;92;120;123;48;51;55;48;125;45;92;120;123;48;51;70;70;125].
+Proof. vm_compute. reflexivity. Qed.
 
 (* A pattern that contains no '^', no '$' and no occurrence of \p{Is reaches pcre2_compile()
    unchanged, or is rejected because of a ']' outside brackets (error class 1); nothing else can
@@ -34,55 +61,151 @@ Example C18_rewrite_identity_ex :
   /\ rewrite [97;93;98] = Err 1.
 Proof. vm_compute. split; reflexivity. Qed.
 
-(* A pattern built from ordinary bytes, backslash pairs (of a byte other than '^' '$'), bracket
-   expressions (any bytes but brackets and backslash, or backslash pairs, inside; '^' and '$' allowed
-   there) and UNESCAPED '^' / '$' outside brackets, with no occurrence of \p{Is : the text handed to
-   PCRE2 is the pattern with exactly one backslash in front of each of those '^' / '$' (they become
-   literals, the XSD meaning) and nothing else changed. *)
+(* A pattern built from ordinary bytes, backslash pairs of ANY byte (so also the escaped anchors \^
+   and \$), bracket expressions (any bytes but brackets and backslash, or backslash pairs, inside; '^'
+   and '$' allowed there) and UNESCAPED '^' / '$' outside brackets, with no occurrence of \p{Is : the
+   text handed to PCRE2 is the pattern with exactly one backslash in front of each of those unescaped
+   '^' / '$' (they become literals, the XSD meaning) and nothing else changed. *)
 Theorem C18_rewrite_caret_dollar :
   forall ts, forallb tok_ok ts = true -> find_sub needle (flat_map render ts) = None ->
              rewrite (flat_map render ts) = Ok (flat_map render_esc ts).
 Proof. exact rewrite_caret_dollar. Qed.
 Print Assumptions C18_rewrite_caret_dollar.
 
-(* ^a[^b$]\.$  ->  \^a[^b$]\.\$ *)
+(* ^a\^[^b$]\.$  ->  \^a\^[^b$]\.\$   (the escaped caret keeps its single backslash) *)
 Example C18_rewrite_caret_dollar_ex :
-  let ts := [TAnchor 94; TChar 97; TClass [CChar 94; CChar 98; CChar 36]; TEsc 46; TAnchor 36] in
+  let ts := [TAnchor 94; TChar 97; TEsc 94; TClass [CChar 94; CChar 98; CChar 36]; TEsc 46; TAnchor 36] in
   forallb tok_ok ts = true /\ find_sub needle (flat_map render ts) = None /\
-  flat_map render ts = [94;97;91;94;98;36;93;92;46;36] /\
-  rewrite (flat_map render ts) = Ok [92;94;97;91;94;98;36;93;92;46;92;36].
+  flat_map render ts = [94;97;92;94;91;94;98;36;93;92;46;36] /\
+  rewrite (flat_map render ts) = Ok [92;94;97;92;94;91;94;98;36;93;92;46;92;36].
 Proof. vm_compute. repeat split. Qed.
 
-(* Refuted for ESCAPED anchors: for the pattern a\^b (XSD: the three characters a ^ b, and the XSD
-   reference accepts the string a^b) the text handed to PCRE2 is a\\^b - an escaped backslash
-   followed by an anchor - where the intended rewrite (esc_pass_spec: honour [escaped]) leaves
-   a\^b alone. Same for a\$b. *)
-Theorem C18_escaped_caret_refuted :
-  exists p, xsd_match p [97;94;98] = Some true /\
-            rewrite p = Ok [97;92;92;94;98] /\ rewrite_spec p = Ok [97;92;94;98] /\
-            rewrite [97;92;36;98] = Ok [97;92;92;36;98].
-Proof. exists [97;92;94;98]. vm_compute. repeat split. Qed.
-Print Assumptions C18_escaped_caret_refuted.
+(* regression of the fixed defect 97840a6: a\^b\$ is handed to PCRE2 as it is, and the XSD reference
+   accepts the string a^b for a\^b (XSD 1.0 has the escape \^ but not \$) *)
+Example C18_escaped_anchor_ex :
+  rewrite [97;92;94;98;92;36] = Ok [97;92;94;98;92;36] /\
+  rewrite [97;92;94;98] = Ok [97;92;94;98] /\
+  xsd_match [97;92;94;98] [97;94;98] = Some true.
+Proof. vm_compute. repeat split. Qed.
 
-(* Refuted for blocks: \p{IsGreek} (XSD: U+0370..U+03FF; the reference accepts GREEK SMALL LETTER
-   ALPHA = CE B1 and rejects a) is replaced by the range of BasicLatin, [\x{0000}-\x{007F}], and
-   inside one pair of brackets by the range of Latin-1Supplement; the intended rewrite writes
-   [\x{0370}-\x{03FF}]. *)
-Theorem C18_block_index_refuted :
-  exists p, xsd_match p [206;177] = Some true /\ xsd_match p [97] = Some false /\
-            rewrite p = Ok [91;92;120;123;48;48;48;48;125;45;92;120;123;48;48;55;70;125;93] /\
-            rewrite_spec p = Ok [91;92;120;123;48;51;55;48;125;45;92;120;123;48;51;70;70;125;93] /\
-            rewrite ([91] ++ p ++ [93]) = Ok [91;92;120;123;48;48;56;48;125;45;92;120;123;48;48;70;70;125;93].
-Proof. exists [92;112;123;73;115;71;114;101;101;107;125]. vm_compute. repeat split. Qed.
-Print Assumptions C18_block_index_refuted.
+(* One block. Pattern pre ++ \p{Is ++ NAME ++ } ++ post where NAME is the name of a table entry e that
+   the name lookup of the code resolves to e (C18_block_lookup: all names but six), pre and post
+   contain no \p{Is, and pre does not end inside an escape pair (the first pass leaves pre with
+   bracket depth b and escaped = 0). Then the text handed to PCRE2 is pre' ++ R ++ post', where pre' is
+   what the first pass makes of pre, post' what it makes of post at depth b, and R is the replacement
+   text of e: its first URANGE_LEN = 19 bytes when the bracket counter of the second function
+   (brk_count) is 0 after pre', else the 17 bytes after its first byte. *)
+Theorem C18_rewrite_block :
+  forall pre post e pre' post' b,
+    In e ublock2urange -> block_find (fst e ++ [125]) = Some e ->
+    has_sub needle pre = false -> has_sub needle post = false ->
+    esc_pass 0 false pre = Ok pre' -> esc_end 0 false pre = (b, false) ->
+    esc_pass b false post = Ok post' ->
+    rewrite (pre ++ needle ++ fst e ++ 125 :: post)
+    = Ok (pre' ++ (if (brk_count 0 pre' 0%Z =? 0)%Z then firstn URANGE_LEN (snd e)
+                   else firstn (URANGE_LEN - 2) (skipn 1 (snd e))) ++ post').
+Proof. exact rewrite_block. Qed.
+Print Assumptions C18_rewrite_block.
 
-(* Refuted memory safety of the block rewrite: for the pattern \\[]\p{IsGreek} the bracket counter
-   of lys_compile_pattern_chblocks_xmlschema2perl() is below zero when it is used as the index into
-   ublock2urange[] (error class 4 of the model = undefined behaviour in C; confirmed by UBSan). *)
-Theorem C18_block_index_oob_refuted :
-  exists p, rewrite p = Err 4.
-Proof. exists [92;92;91;93;92;112;123;73;115;71;114;101;101;107;125]. vm_compute. reflexivity. Qed.
-Print Assumptions C18_block_index_oob_refuted.
+(* The same when pre moreover contains no two backslashes in a row (no escaped backslash): the
+   counter of the second function then IS the bracket depth b of the first pass, so the range is
+   written with its own brackets iff the block stands outside brackets (b = 0), without them iff it
+   stands inside. For every entry but Specials the 19 bytes are the whole replacement text and the 17
+   bytes are it without its brackets (C18_block_lookup, second part). *)
+Theorem C18_rewrite_block_depth :
+  forall pre post e pre' post' b,
+    In e ublock2urange -> block_find (fst e ++ [125]) = Some e ->
+    has_sub needle pre = false -> has_sub needle post = false -> has_sub bs2 pre = false ->
+    esc_pass 0 false pre = Ok pre' -> esc_end 0 false pre = (b, false) ->
+    esc_pass b false post = Ok post' ->
+    rewrite (pre ++ needle ++ fst e ++ 125 :: post)
+    = Ok (pre' ++ (if b =? 0 then firstn URANGE_LEN (snd e)
+                   else firstn (URANGE_LEN - 2) (skipn 1 (snd e))) ++ post').
+Proof. exact rewrite_block_depth. Qed.
+Print Assumptions C18_rewrite_block_depth.
+
+(* The name lookup of the code (first entry whose name is a prefix) finds the entry of NAME} itself
+   for every table name but GreekExtended, BopomofoExtended, CJKCompatibilityIdeographs,
+   ArabicPresentationForms-A, CJKCompatibilityForms, ArabicPresentationForms-B; the table has 84
+   entries, 83 of them with a replacement text of exactly URANGE_LEN bytes that starts with '[' and
+   ends with ']' (the exception is Specials). *)
+Theorem C18_block_lookup :
+  (forall e, In e ublock2urange -> block_find (fst e ++ [125]) = Some e \/ In (fst e) shadowed_names) /\
+  length ublock2urange = 84%nat /\ length shadowed_names = 6%nat /\
+  length (filter (fun e => (length (snd e) =? URANGE_LEN)%nat && starts_with [91] (snd e) &&
+                           (last (snd e) 0 =? 93)) ublock2urange) = 83%nat.
+Proof. split; [exact block_lookup|]. vm_compute. repeat split. Qed.
+Print Assumptions C18_block_lookup.
+
+(* regression of the fixed defect 0ef0929, and the hypotheses of C18_rewrite_block_depth are
+   satisfiable: \p{IsGreek} -> [\x{0370}-\x{03FF}] ; [^a\p{IsGreek}] -> [^a\x{0370}-\x{03FF}] ; the XSD
+   reference accepts GREEK SMALL LETTER ALPHA (CE B1) and rejects a for \p{IsGreek} *)
+Example C18_rewrite_block_ex :
+  let greek := ([71;114;101;101;107], [91;92;120;123;48;51;55;48;125;45;92;120;123;48;51;70;70;125;93]) in
+  In greek ublock2urange /\ block_find (fst greek ++ [125]) = Some greek /\
+  esc_pass 0 false [91;94;97] = Ok [91;94;97] /\ esc_end 0 false [91;94;97] = (1, false) /\
+  esc_pass 1 false [93] = Ok [93] /\
+  rewrite [92;112;123;73;115;71;114;101;101;107;125]
+  = Ok [91;92;120;123;48;51;55;48;125;45;92;120;123;48;51;70;70;125;93] /\
+  rewrite [91;94;97;92;112;123;73;115;71;114;101;101;107;125;93]
+  = Ok [91;94;97;92;120;123;48;51;55;48;125;45;92;120;123;48;51;70;70;125;93] /\
+  xsd_match [92;112;123;73;115;71;114;101;101;107;125] [206;177] = Some true /\
+  xsd_match [92;112;123;73;115;71;114;101;101;107;125] [97] = Some false.
+Proof. vm_compute. repeat split. right; right; right; right; right; right; right; left; reflexivity. Qed.
+
+(* The code is the Spec. For every pattern p that contains no two backslashes in a row and in which
+   every occurrence of \p{Is is followed by a table name that the lookup resolves to itself, whose
+   replacement text is URANGE_LEN bytes long, and by '}' (blocks_exact), the text handed to PCRE2 is
+   the intended one: rewrite_spec = one backslash in front of every unescaped anchor outside
+   brackets, every block replaced by the whole range of the EXACT name, with the range's own brackets
+   iff the bracket depth counted with proper escape tracking is 0. Any number of blocks, anchors,
+   bracket expressions. Both hypotheses are needed: see the three _refuted theorems below. *)
+Theorem C18_rewrite_eq_spec :
+  forall p, has_sub bs2 p = false -> blocks_exact p = true -> rewrite p = rewrite_spec p.
+Proof. exact rewrite_eq_spec. Qed.
+Print Assumptions C18_rewrite_eq_spec.
+
+(* ^\p{IsCyrillic}+[$\p{IsThai}]  ->  \^[\x{0400}-\x{04FF}]+[$\x{0E00}-\x{0E7F}] *)
+Example C18_rewrite_eq_spec_ex :
+  let p := [94;92;112;123;73;115;67;121;114;105;108;108;105;99;125;43;91;36;92;112;123;73;115;84;104;97;105;125;93] in
+  has_sub bs2 p = false /\ blocks_exact p = true /\
+  rewrite p = Ok [92;94;91;92;120;123;48;52;48;48;125;45;92;120;123;48;52;70;70;125;93;43;91;36;92;120;123;48;69;48;48;125;45;92;120;123;48;69;55;70;125;93].
+Proof. vm_compute. repeat split. Qed.
+
+(* Refuted without exact names (defect D4, prefix lookup): \p{IsGreekExtended} (XSD: U+1F00..U+1FFF;
+   the reference accepts U+1F00 = E1 BC 80) is replaced by the range of Greek, the first table entry
+   whose name is a prefix; the intended text is [\x{1F00}-\x{1FFF}]. *)
+Theorem C18_block_prefix_refuted :
+  exists p, blocks_exact p = false /\ has_sub bs2 p = false /\
+            xsd_match p [225;188;128] = Some true /\
+            rewrite p = Ok [91;92;120;123;48;51;55;48;125;45;92;120;123;48;51;70;70;125;93] /\
+            rewrite_spec p = Ok [91;92;120;123;49;70;48;48;125;45;92;120;123;49;70;70;70;125;93].
+Proof. exists [92;112;123;73;115;71;114;101;101;107;69;120;116;101;110;100;101;100;125]. vm_compute. repeat split. Qed.
+Print Assumptions C18_block_prefix_refuted.
+
+(* Refuted for the block Specials (defect D5): the replacement text of the table is 28 bytes long and
+   is cut after URANGE_LEN = 19 bytes: \p{IsSpecials} becomes [\x{FEFF}|\x{FFF0}- (no closing bracket;
+   XSD: U+FFF0..U+FFFD and U+FEFF; the reference accepts U+FFFD = EF BF BD). *)
+Theorem C18_block_specials_refuted :
+  exists p, blocks_exact p = false /\ has_sub bs2 p = false /\
+            xsd_match p [239;191;189] = Some true /\
+            rewrite p = Ok [91;92;120;123;70;69;70;70;125;124;92;120;123;70;70;70;48;125;45] /\
+            rewrite_spec p = Ok [91;92;120;123;70;69;70;70;125;124;92;120;123;70;70;70;48;125;45;92;120;123;70;70;70;68;125;93].
+Proof. exists [92;112;123;73;115;83;112;101;99;105;97;108;115;125]. vm_compute. repeat split. Qed.
+Print Assumptions C18_block_specials_refuted.
+
+(* Refuted after an escaped backslash (defect D3): in \\[a]\p{IsGreek} (XSD: a backslash, an a, a
+   Greek character; the reference accepts \aα) the bracket counter of the second function takes the
+   '[' for escaped because the byte before it is a backslash, is -1 at the block, and the range is
+   written WITHOUT its brackets although the block stands outside brackets: PCRE2 is given
+   \\[a]\x{0370}-\x{03FF}, i.e. backslash, a, U+0370, '-', U+03FF. *)
+Theorem C18_block_depth_refuted :
+  exists p, blocks_exact p = true /\ has_sub bs2 p = true /\
+            xsd_match p [92;97;206;177] = Some true /\
+            rewrite p = Ok [92;92;91;97;93;92;120;123;48;51;55;48;125;45;92;120;123;48;51;70;70;125] /\
+            rewrite_spec p = Ok [92;92;91;97;93;91;92;120;123;48;51;55;48;125;45;92;120;123;48;51;70;70;125;93].
+Proof. exists [92;92;91;97;93;92;112;123;73;115;71;114;101;101;107;125]. vm_compute. repeat split. Qed.
+Print Assumptions C18_block_depth_refuted.
 
 (* lyplg_type_validate_patterns(): when the matcher itself does not fail, the value is accepted iff
    every pattern of the list is satisfied, where a pattern without invert-match is satisfied by a
